@@ -351,6 +351,20 @@ func (ap *AP) T(axes ...int) (retVal AP, a []int, err error) {
 	}
 	a = axes
 
+	// every axis has to name a distinct dimension (the vector fast path below does not go through UnsafePermute)
+	seen := make([]bool, dims)
+	for _, axis := range axes {
+		if axis < 0 || axis >= dims {
+			err = errors.Errorf(invalidAxis, axis, dims)
+			return
+		}
+		if seen[axis] {
+			err = errors.Errorf(repeatedAxis, axis)
+			return
+		}
+		seen[axis] = true
+	}
+
 	if ap.shape.IsScalarEquiv() {
 		return ap.Clone(), a, noopError{}
 	}
